@@ -32,11 +32,12 @@ def c02(R):
     for t, N, A, E, ns, r, p in mdps(8 if TH else 4):
         v0 = rng.normal(0, 5, N); g = float(rng.choice([0.9, 0.5, 1.0]))
         for bs in batch_sizes(N):
-            sdim = 1 + (t + bs) % 2; paa = bool((t + bs) % 3 == 0)
-            prob = Tab(ns, r, p, v0, sdim=sdim, prob_as_array=paa)
+            sdim = 1 + (t + bs) % 2; paa = bool((t + bs) % 3 == 0); half = bool((t + bs) % 4 == 1)      # some problems with float (half-unit) state vectors
+            if half: sdim = 1
+            prob = Tab(ns, r, p, v0, sdim=sdim, prob_as_array=paa, half_units=half)
             s = VI(prob, gamma=g, epsilon=1e-6, verbose=0, max_batch_size=bs)
-            V = rng.normal(0, 4, N); inp = desc(N, A, E, gamma=g, max_batch_size=bs, state_dim=sdim, prob_as_array=paa, V=V, **tables(ns, r, p))
-            R.case((N, A, E, bs, sdim, paa), {k: inp[k] for k in ("N", "A", "E", "gamma", "max_batch_size")})
+            V = rng.normal(0, 4, N); inp = desc(N, A, E, gamma=g, max_batch_size=bs, state_dim=sdim, prob_as_array=paa, half_unit_float_states=half, V=V, **tables(ns, r, p))
+            R.case((N, A, E, bs, sdim, paa, half), {k: inp[k] for k in ("N", "A", "E", "gamma", "max_batch_size")})
             out = np.asarray(s._update_values(s.batched_states, prob.action_space, prob.random_event_space, s.gamma, jnp.array(V)))
             Qm = Qf(ns, r, p, g, V)
             if out.shape != (N,) or not close(out, Qm.max(1)): R.fail("c02.sweep_is_bellman_backup", "sweep != max_a sum_e p (r + gamma V[idx(next)])", inp, out, Qm.max(1))
